@@ -1169,6 +1169,12 @@ def _decode_sampler(mchunks, payload, expected, problems):
         payload["editor_selected_size"] = _field(record, "<i", 0x18C)  # S
         payload["record_size"] = len(record)
         payload["signature"] = record[0xFC:0x100]  # D: ASCII 'PMAS'
+        # D 0x1c: "unsigned int32  Max sample index + 1 (0 for no samples)" -- a derived field (DECISION 10):
+        # not part of the value, but it must agree with the sample chunks actually present.
+        declared = _field(record, "<I", 0x1C)
+        want = (max(samples) + 1) if samples else 0
+        if declared is not None and declared != want:
+            problems.append("Sampler record: max sample index + 1 is %d but the sample chunks give %d" % (declared, want))
 
     # ---- effect: CHNM 0x10A, an embedded .sunsynth (D) ----
     expected.add(_SAMPLER_EFFECT_CHNM)
